@@ -69,6 +69,11 @@ def main():
         if c["property_id"] in CHANNEL:
             c["level_note"] += CHANNEL_NOTE
             c["technique"] += " + TLC on Channel.tla (safety, liveness under fairness, refinement) + TLC trace validation of hook events (TraceChan.tla)"
+        if c["property_id"] not in SIDE_SPEC:
+            c["level_note"] += (" The collector's batch processing is spec/Collector.tla (pure operators applied by Fastrace.tla's collector step); every batch the real "
+                                "collector processed in the validated runs is folded through the same operators by spec/TraceColl.tla and what the collector kept and "
+                                "reported must be what they yield (coverage.collector_conformance in the evidence).")
+            c["technique"] += " + TLC trace validation of the collector's processed batches against Collector.tla (TraceColl.tla)"
         if c["property_id"] in SIDE_SPEC:
             c["level_note"] = ("The TLA+ module is the oracle and the exhaustive class enumerator; the Rust code is only observed, not proved. Trusted: the side harness's "
                                "concretisation of classes and its independent decoders (sideharness/src/wire.rs).")
@@ -86,7 +91,7 @@ def main():
                    source_commits=hook_commits, add_only=True),
         engines=[dict(name="fastrace-side", path="spec/side/*.tla, sideharness/, lib/side.py", serves_properties=sorted(SIDE_SPEC),
                       kind_free_text="TLA+ side specifications: TLC enumerates cases / model checks the transcribed algorithm, the real code runs the cases, TLC validates the observations"),
-                 dict(name="fastrace-tla", path="spec/Fastrace.tla, spec/Abs.tla, spec/TraceAbs.tla, spec/Channel.tla, spec/TraceChan.tla, harness/, lib/",
+                 dict(name="fastrace-tla", path="spec/Fastrace.tla, spec/Abs.tla, spec/TraceAbs.tla, spec/Collector.tla, spec/TraceColl.tla, spec/Channel.tla, spec/TraceChan.tla, harness/, lib/",
                       serves_properties=sorted(claimed - set(SIDE_SPEC)),
                       kind_free_text="explicit TLA+ specification checked with TLC; conformance by steered replay of TLC behaviours and TLC trace validation")],
         checks=checks,
